@@ -2,6 +2,8 @@
 """Record the digests of the anchored source files of /repo (translator/source_pins.json): the tree on which the correspondence and the
 oracles of every property were last calibrated. `Check.finish` raises the search budget of the quick tier when a digest differs."""
 import os, sys, json
+if os.path.realpath(sys.executable) != os.path.realpath('/venv/bin/python') and os.path.exists('/venv/bin/python'):
+    os.execv('/venv/bin/python', ['/venv/bin/python'] + sys.argv)      # ast.dump differs between interpreter versions: pin with the one the checks run under
 sys.path.insert(0, os.path.join(os.path.dirname(os.path.abspath(__file__)), '..', 'harness'))
 import common
 json.dump(common.source_digests(None), open(common.PINS, 'w'), indent=1, sort_keys=True)
